@@ -160,6 +160,7 @@ func callWatched(c *core.Ctx, f func() (map[string]interface{}, error)) (r c14Re
 		}()
 		r.out, r.err = f()
 	}()
+	cpu0 := cpuSeconds()
 	soft := time.Duration(c.Pick(4, 8)) * time.Second
 	select {
 	case <-done:
@@ -187,6 +188,25 @@ func callWatched(c *core.Ctx, f func() (map[string]interface{}, error)) (r c14Re
 			return // it was only slow
 		case <-time.After(time.Second):
 		}
+	}
+	if s, ok := sampleProc(pid); !ok || s.state == "Z" || s.state == "X" {
+		// second witness: the command has ended, the call has not returned, and it is this process that
+		// burns CPU - 30 CPU-seconds for collecting a few MiB of output is not "slow"
+		for waited := 0; waited < 180; waited++ {
+			select {
+			case <-done:
+				return // it was only slow
+			case <-time.After(time.Second):
+			}
+			if used := cpuSeconds() - cpu0; used > 30 {
+				r.hung = true
+				r.witness = fmt.Sprintf("child %d has ended, the call has not returned after %d s and the calling process has used %.0f CPU-seconds since the call began (spinning on the collected output)", pid, waited+int(soft/time.Second), used)
+				return
+			}
+		}
+		r.unknown = true
+		r.witness = "command ended, call did not return within 3 minutes, fewer than 30 CPU-seconds used"
+		return
 	}
 	blocked := len(samples) == 3
 	for _, s := range samples {
@@ -501,6 +521,180 @@ func runC14(c *core.Ctx) {
 	if c.Shard == 0 {
 		c14Errors(c, helper)
 	}
+	c14Special(c, helper, key)
+}
+
+// c14Special: commands whose shape the emit plans do not have.
+func c14Special(c *core.Ctx, helper string, key gen.KeyPair) {
+	ok := int64(0)
+	byProducts := func(md intoto.Metadata, err error) (map[string]interface{}, error) {
+		if err != nil {
+			return nil, err
+		}
+		l, isLink := md.GetPayload().(intoto.Link)
+		if !isLink {
+			return nil, fmt.Errorf("no link")
+		}
+		return l.ByProducts, nil
+	}
+	str := func(m map[string]interface{}, k string) string { s, _ := m[k].(string); return s }
+	status := func(m map[string]interface{}) string { return fmt.Sprint(m["return-value"]) }
+	os.Chdir(c.WorkDir)
+	for _, dsse := range []bool{false, true} {
+		// (1) a command that cannot be started is an error of InTotoRun, too - also when there are
+		// products to record afterwards
+		if c.Shard == 1%c.NShards {
+			prodDir := filepath.Join(c.WorkDir, "special-products")
+			mkdirs(prodDir)
+			writeFile(filepath.Join(prodDir, "p.txt"), "product\n")
+			for _, args := range [][]string{{"/no/such/program"}, {"no-such-program-zq", "x"}, {prodDir}} { // (no command at all is InTotoRun's record-only mode)
+				id := fmt.Sprintf("special/unstartable-through-InTotoRun/%v/dsse=%v", args, dsse)
+				if !c.Want(id) {
+					continue
+				}
+				var err error
+				c.Begin(id)
+				pk := c.Guard(id, "InTotoRun", args, func() {
+					_, err = intoto.InTotoRun("s", "", []string{prodDir}, []string{prodDir}, args, key.Priv, []string{"sha256"}, nil, nil, false, false, dsse)
+				})
+				c.End(id)
+				c.Eval(1)
+				if !pk && err == nil {
+					c.Violation("a command that cannot be started is not reported as an error by InTotoRun", id, map[string]any{"argv": args, "dsse": dsse, "products_recorded_afterwards": true})
+				} else if !pk {
+					ok++
+					c.Class("special", "unstartable-InTotoRun", fmt.Sprint(args), dsse)
+				}
+			}
+		}
+		// (2) the command's standard input is empty, whatever the caller's own standard input is
+		if c.Shard == 2%c.NShards {
+			id := fmt.Sprintf("special/standard-input/dsse=%v", dsse)
+			if c.Want(id) {
+				pr, pw, perr := os.Pipe()
+				if perr == nil {
+					pw.Write([]byte("what the caller's standard input holds\n"))
+					saved := os.Stdin
+					os.Stdin = pr // an open pipe with pending data: not at its end
+					c.Begin(id)
+					res := callWatched(c, func() (map[string]interface{}, error) {
+						return byProducts(intoto.InTotoRun("s", "", nil, nil, []string{helper, "stdin-probe"}, key.Priv, []string{"sha256"}, nil, nil, false, false, dsse))
+					})
+					c.End(id)
+					os.Stdin = saved
+					pw.Close()
+					pr.Close()
+					c.Eval(1)
+					switch {
+					case res.hung || res.unknown:
+						c.Inconclusive("stdin probe did not return")
+					case res.err != nil:
+						c.Violation("command that terminates is reported as an error (stdin probe): "+core.MsgClass(res.err.Error()), id, nil)
+					case str(res.out, "stdout") != "stdin: 0 bytes, end of input: true\n":
+						c.Violation("a step command is given the caller's standard input instead of an empty one: what it writes (and whether it ends) depends on the calling process", id, map[string]any{"stdout": str(res.out, "stdout"), "dsse": dsse})
+					default:
+						ok++
+						c.Class("special", "stdin", dsse)
+					}
+				}
+			}
+		}
+		// (3) a command that exits 0 and leaves a descendant on its output streams: exit status 0, and
+		// what the command itself wrote is there (whether the descendant's late line is, is not judged)
+		if c.Shard == 3%c.NShards {
+			id := fmt.Sprintf("special/descendant-keeps-the-streams/dsse=%v", dsse)
+			if c.Want(id) {
+				c.Begin(id)
+				res := callWatched(c, func() (map[string]interface{}, error) {
+					return byProducts(intoto.InTotoRun("s", "", nil, nil, []string{helper, "leave-descendant", "1500"}, key.Priv, []string{"sha256"}, nil, nil, false, false, dsse))
+				})
+				c.End(id)
+				c.Eval(1)
+				switch {
+				case res.hung || res.unknown:
+					c.Inconclusive("descendant case did not return")
+				case res.err != nil:
+					c.Violation("command that terminates is reported as an error (it left a descendant on its output streams): "+core.MsgClass(res.err.Error()), id, nil)
+				case status(res.out) != "0" || !strings.HasPrefix(str(res.out, "stdout"), "parent done\n"):
+					c.Violation("a command that exits 0 and leaves a descendant on its output streams is not recorded with status 0 and its own output", id, map[string]any{"return-value": res.out["return-value"], "stdout": str(res.out, "stdout"), "dsse": dsse})
+				default:
+					ok++
+					c.Class("special", "descendant", dsse)
+				}
+			}
+		}
+		// (4) an inspection whose command is one element: the path of an executable, blanks included
+		if c.Shard == 4%c.NShards {
+			id := fmt.Sprintf("special/inspection-executable-with-a-blank-in-its-path/dsse=%v", dsse)
+			if c.Want(id) {
+				dir := filepath.Join(c.WorkDir, "release tools")
+				mkdirs(dir)
+				marker := filepath.Join(c.WorkDir, fmt.Sprintf("blank-marker-%v", dsse))
+				os.Remove(marker)
+				tool := filepath.Join(dir, "check all.sh")
+				os.WriteFile(tool, []byte("#!/bin/sh\necho checked\necho ran > '"+marker+"'\n"), 0755)
+				// a program that a split at the blank would find instead
+				os.WriteFile(filepath.Join(c.WorkDir, "release"), []byte("#!/bin/sh\necho wrong program\n"), 0755)
+				layout := gen.NewLayout(nil, []intoto.Inspection{gen.Inspection("blank", []string{tool}, [][]string{{"ALLOW", "*"}}, [][]string{{"ALLOW", "*"}})}, nil)
+				runIn := filepath.Join(c.WorkDir, "special-inspect-dir")
+				mkdirs(runIn)
+				writeFile(filepath.Join(runIn, "keep"), "x")
+				var links map[string]intoto.Metadata
+				var err error
+				os.Chdir(runIn)
+				c.Begin(id)
+				pk := c.Guard(id, "RunInspections", tool, func() { links, err = intoto.RunInspections(layout, "", false, dsse) })
+				c.End(id)
+				os.Chdir(c.WorkDir)
+				c.Eval(1)
+				if !pk {
+					_, serr := os.Stat(marker)
+					out := ""
+					if err == nil && links["blank"] != nil {
+						if l, isLink := links["blank"].GetPayload().(intoto.Link); isLink {
+							out = str(l.ByProducts, "stdout")
+						}
+					}
+					if err != nil || serr != nil || out != "checked\n" {
+						c.Violation("an inspection whose command is the path of an executable with a blank in it does not run that executable", id, map[string]any{"error": errStr(err), "marker_written": serr == nil, "stdout": out, "dsse": dsse})
+					} else {
+						ok++
+						c.Class("special", "blank-path", dsse)
+					}
+				}
+			}
+		}
+	}
+	// (5) some MiB of line-oriented output through the DSSE wrapper: the call returns (spin witness in callWatched)
+	if c.Shard == 5%c.NShards {
+		p := c14Plan{Seed: 77, Plan: "o:4194304,e:1048576", Via: "InTotoRun"}
+		id := "special/4-MiB-of-lines-through-DSSE"
+		if c.Want(id) {
+			c.Begin(id)
+			res := callWatched(c, func() (map[string]interface{}, error) {
+				return byProducts(intoto.InTotoRun("s", "", nil, nil, p.args(helper), key.Priv, []string{"sha256"}, nil, nil, false, false, true))
+			})
+			c.End(id)
+			c.Eval(1)
+			pj, _ := json.Marshal(p)
+			detail := map[string]any{"plan": json.RawMessage(pj), "dsse": true}
+			switch {
+			case res.hung:
+				detail["witness"] = res.witness
+				c.Violation("call does not return after the command has ended (via InTotoRun with the DSSE wrapper, 4 MiB of lines on stdout)", id, detail)
+			case res.unknown:
+				c.Inconclusive("call did not return in time, no witness")
+			case res.err != nil:
+				c.Violation("command that terminates is reported as an error (via InTotoRun): "+core.MsgClass(res.err.Error()), id, detail)
+			default:
+				if c14Check(c, id, p, res.out, detail) {
+					ok++
+					c.Class("special", "4MiB-lines-dsse")
+				}
+			}
+		}
+	}
+	c.Obs("special_commands_as_expected", ok)
 }
 
 func sizeClass(n int) string {
@@ -663,7 +857,7 @@ func init() {
 	core.Register(&core.Property{
 		ID:    "C14",
 		Level: "exploration",
-		Rule: "commands `vhelper emit` with planned output: stdout x stderr sizes from {0, 1, 4095, 4096, 65535, 65536, 65537, 200000, 1 MiB (, 4 MiB thorough)} in both orders, alternating chunks of 1 / 4096 / 65537 bytes, one stream closed before the other is written, random sequences of 1-8 chunks with sizes around 4 KiB / 64 KiB / 128 KiB on either stream with optional pauses and early closes (80 quick / 3000 thorough), text (with CR, LF, TAB), binary content and single lines of 64 KiB - 1 MiB without any line break, InTotoRun with line normalisation on and off, exit statuses 0..255 (16 values), death by signals 1,2,6,9,11,13,15, run directory empty or a temp dir, program given relative to the run directory; through RunCommand, InTotoRun (by-products) and the CLI `run` (by-products in the link file); unstartable and empty commands (also an inspection with an empty run list through RunInspections); a quarter of the workers run with GOMAXPROCS=1, another quarter in a process whose OS threads keep ending (goroutines that lock their thread and return, about 1000 per second). Oracle: streams regenerated from the seed and compared byte for byte, exact exit status; hang = causal witness (a thread of the child blocked in write(2) on fd 1/2, CPU time unchanged over 3 samples, call not returned; pid from the cmd_started hook), otherwise inconclusive. " +
+		Rule: "commands `vhelper emit` with planned output: stdout x stderr sizes from {0, 1, 4095, 4096, 65535, 65536, 65537, 200000, 1 MiB (, 4 MiB thorough)} in both orders, alternating chunks of 1 / 4096 / 65537 bytes, one stream closed before the other is written, random sequences of 1-8 chunks with sizes around 4 KiB / 64 KiB / 128 KiB on either stream with optional pauses and early closes (80 quick / 3000 thorough), text (with CR, LF, TAB), binary content and single lines of 64 KiB - 1 MiB without any line break, InTotoRun with line normalisation on and off, exit statuses 0..255 (16 values), death by signals 1,2,6,9,11,13,15, run directory empty or a temp dir, program given relative to the run directory; through RunCommand, InTotoRun (by-products) and the CLI `run` (by-products in the link file); unstartable and empty commands (also an inspection with an empty run list through RunInspections, and through InTotoRun with products to record afterwards); a command that reads its standard input while the caller's own standard input is an open pipe with pending data (must see an empty input); a command that exits 0 and leaves a descendant on its output streams (status 0 and its own output); an inspection whose one-element command is the path of an executable with a blank in it; 4 MiB of lines through InTotoRun with the DSSE wrapper; a quarter of the workers run with GOMAXPROCS=1, another quarter in a process whose OS threads keep ending (goroutines that lock their thread and return, about 1000 per second). Oracle: streams regenerated from the seed and compared byte for byte, exact exit status; hang = causal witness (a thread of the child blocked in write(2) on fd 1/2, CPU time unchanged over 3 samples, call not returned; pid from the cmd_started hook), or: the command has ended, the call has not returned and the calling process has used 30 CPU-seconds since the call began), otherwise inconclusive. " +
 			"non-trivial = a stream exceeds one pipe buffer (64 KiB) or a non-zero status; distinct = (via, size classes, order, exit, signal, run dir)",
 		Assumptions: []string{"Linux x86-64 /proc/<pid>/task/*/syscall is readable (we run as root)", "for death by signal only 'not reported as success' is required"},
 		Workers:     func(string) int { return 16 },
